@@ -175,18 +175,20 @@ template <class Ptr> static void waiter_body(const Sc& sc, Ptr act, sg4::Host* m
   } catch (const std::exception& e) {
     out = "exc:" + exc_name(e);
   }
+  // get_remaining() is only asked to execs and I/Os (a mailbox comm completed by the one-simcall path has no kernel activity attached)
+  bool has_rem = (kind == "exec" || kind == "io");
   LOG("waiter", "ret clock=%.17g out=%s which=%s state=%s rem=%.17g decstate=%s", now(), out.c_str(), which.c_str(), base->get_state_str(),
-      base->get_remaining(), dec ? dec->get_state_str() : "none");
+      has_rem ? base->get_remaining() : -1.0, dec ? dec->get_state_str() : "none");
 
   bool main_done = base->get_state() == sg4::Activity::State::FINISHED;
   if (out == "timeout" && mode == "forcancel") {
-    LOG("waiter", "cancelchk clock=%.17g state=%s rem=%.17g hostload=%.17g linkload=%.17g", now(), base->get_state_str(), base->get_remaining(),
-        me->get_load(), link->get_load());
+    LOG("waiter", "cancelchk clock=%.17g state=%s rem=%.17g hostload=%.17g linkload=%.17g", now(), base->get_state_str(),
+        has_rem ? base->get_remaining() : -1.0, me->get_load(), link->get_load());
     double z = sc.num("z", 0);
     if (z > 0)
       sg4::this_actor::sleep_for(z);
-    LOG("waiter", "later clock=%.17g state=%s rem=%.17g hostload=%.17g linkload=%.17g", now(), base->get_state_str(), base->get_remaining(),
-        me->get_load(), link->get_load());
+    LOG("waiter", "later clock=%.17g state=%s rem=%.17g hostload=%.17g linkload=%.17g", now(), base->get_state_str(),
+        has_rem ? base->get_remaining() : -1.0, me->get_load(), link->get_load());
     std::string o2 = "ok";
     try {
       act->wait();
@@ -204,8 +206,10 @@ template <class Ptr> static void waiter_body(const Sc& sc, Ptr act, sg4::Host* m
     }
     LOG("waiter", "again clock=%.17g out=%s state=%s", now(), o2.c_str(), base->get_state_str());
   }
-  if (dec) {
-    if (dec->get_state() != sg4::Activity::State::FINISHED)
+  if (dec && dec->get_state() != sg4::Activity::State::FINISHED) {
+    if (mode == "none")
+      dec->wait(); // reference run: observe the decoy's natural completion date (sig line)
+    else
       dec->cancel();
   }
   if (kind == "comm" || kind == "mess") {
